@@ -28,7 +28,7 @@ REQUIRED = ["op.add", "op.assign-all", "op.assign-ids", "op.assign-times", "op.a
             "op.remove-list", "op.re-add", "route.xml", "route.protobuf", "shape.Rectangle", "shape.Circle",
             "shape.Polygon", "shape.ShapeGroup", "obstacle.static", "obstacle.dynamic-trajectory", "obstacle.dynamic-none",
             "straddling(centre-lanelets<shape-lanelets)", "inv-g-checked", "inv-r-checked", "op.move",
-            "centre-on-a-lanelet-the-occupancy-does-not-touch", "scripted-history", "op.shorten-prediction",
+            "centre-on-a-lanelet-the-occupancy-does-not-touch", "scripted-history", "op.shorten-prediction", "op.shorten-trajectory",
             "dynamic-obstacle-entering-after-step-0", "turning-on-the-spot", "c-shaped-body.static",
             "c-shaped-body.dynamic"]
 EXHAUSTIVE = {"quick": "all histories of length <= 2 over the 10-operation alphabet on a fixed 2-obstacle universe",
@@ -306,8 +306,13 @@ def run(ctx):
                     from commonroad.scenario.trajectory import Trajectory
                     sl_ = ob.prediction.trajectory.state_list
                     keep = copy.deepcopy(sl_[: max(1, len(sl_) // 2)])
-                    ctx.feature("op.shorten-prediction")
-                    ob.update_prediction(TrajectoryPrediction(Trajectory(keep[0].time_step, keep), ob.prediction.shape))
+                    if (len(trace) + arg) % 2 == 0:
+                        ctx.feature("op.shorten-prediction")
+                        ob.update_prediction(TrajectoryPrediction(Trajectory(keep[0].time_step, keep), ob.prediction.shape))
+                    else:
+                        # ... or only the trajectory of the SAME prediction object (which keeps what was recorded on it)
+                        ctx.feature("op.shorten-trajectory")
+                        ob.prediction.trajectory = Trajectory(keep[0].time_step, keep)
                     assigned = {a for a in assigned if a[0] != arg}
                     center_only.add(arg)
                     needs_complete.add(arg)
